@@ -223,8 +223,12 @@ where
             return Ok(());
         }
         if let Some(head) = self.head {
-            if slice.len() > Label::MAX_LEN - (self.len() - head) {
+            // The octet at `head` is the length octet, not label content.
+            if slice.len() > Label::MAX_LEN - (self.len() - head - 1) {
                 return Err(PushError::LongLabel);
+            }
+            if self.len() + slice.len() > 254 {
+                return Err(PushError::LongName);
             }
         } else {
             if slice.len() > Label::MAX_LEN {
